@@ -215,6 +215,9 @@ func genCase(r *vh.Rng, thorough bool) *Case {
 	if r.Chance(8) {
 		return genBadMix(r, c)
 	}
+	if r.Chance(10) {
+		return genReload(r, c)
+	}
 	g := newRecGen(r, st)
 	profile := r.Intn(5) // 0,1 queue  2 direct  3 append-only  4 mixed
 	n := 4 + r.Intn(36)
@@ -345,6 +348,98 @@ func genFault(r *vh.Rng) string {
 		return "every:3"
 	}
 	return "random:" + strconv.Itoa(r.PickInt([]int{20, 50, 80})) + ":" + strconv.Itoa(r.Intn(1000))
+}
+
+// genReload: reconfiguration x construction variant.  The sender is built by the production constructor
+// without a queue (or by the hook, in queue mode); several reloads follow, each changing an arbitrary
+// subset of the four settings — the queue size together with the others more often than not — and after
+// each reload records are appended whose sizes and times sit on the NEW limits (flush by size, by time,
+// compression threshold), on the Append path and through SendDirect.
+func genReload(r *vh.Rng, c *Case) *Case {
+	noQueue := r.Chance(65)
+	if noQueue {
+		c.Ctor = "noqueue"
+		c.Settings = Settings{5000, 1000, 65536, 100} // GetInstance: the defaults
+		c.FailedCb = false
+	} else {
+		c.Settings = genSettings(r)
+	}
+	cur := c.Settings
+	g := newRecGen(r, cur)
+	pickP := func(grid []int64, old int64) *int64 {
+		v := r.Pick64(grid)
+		for tries := 0; v == old && tries < 4; tries++ {
+			v = r.Pick64(grid)
+		}
+		return &v
+	}
+	reloads := 2 + r.Intn(4)
+	for k := 0; k < reloads; k++ {
+		conf := &ConfSpec{}
+		mask := 1 + r.Intn(15) // any non-empty subset of {queue, wait, buf, zip}
+		if r.Chance(60) {
+			mask |= 1 // the queue size changes together with the others
+		}
+		if mask&1 != 0 {
+			conf.QueueSize = pickP([]int64{1, 2, 5, 500, 1000, 2000}, cur.QueueCap)
+		} else if cur.QueueCap != 1000 || r.Chance(50) {
+			q := cur.QueueCap // key present, value unchanged
+			conf.QueueSize = &q
+		}
+		if mask&2 != 0 {
+			conf.MaxWait = pickP([]int64{1, 10, 50, 5000}, cur.MaxWait)
+		} else if cur.MaxWait != 2000 {
+			w := cur.MaxWait
+			conf.MaxWait = &w
+		}
+		if mask&4 != 0 {
+			conf.MaxBuf = pickP([]int64{60, 100, 257, 1000, 65536}, cur.MaxBuf)
+		} else if cur.MaxBuf != 65536 {
+			b := cur.MaxBuf
+			conf.MaxBuf = &b
+		}
+		if mask&8 != 0 {
+			conf.ZipMin = pickP([]int64{0, 40, 100, 300, 1 << 30}, cur.ZipMin)
+		} else if cur.ZipMin != 100 {
+			z := cur.ZipMin
+			conf.ZipMin = &z
+		}
+		c.Ops = append(c.Ops, Op{K: "config", C: conf})
+		cur = applyConf(cur, conf)
+		g.st = cur
+		// records on the new limits
+		n := 3 + r.Intn(6)
+		for i := 0; i < n; i++ {
+			s := g.next()
+			switch r.Intn(5) {
+			case 0:
+				s = withEncLen(s, int(cur.MaxBuf)) // reaches the new buffer limit by itself
+			case 1:
+				s = withEncLen(s, int(cur.ZipMin)+r.Intn(3)-1) // around the new compression threshold
+			case 2:
+				g.now += cur.MaxWait // the new waiting time has passed since the batch began
+				s.Time = g.now
+			}
+			if s.N > 20000 {
+				s.N = 20000
+			}
+			switch {
+			case !noQueue && r.Chance(50):
+				c.Ops = append(c.Ops, Op{K: "add", R: &s}, Op{K: "step"})
+			case r.Chance(25):
+				c.Ops = append(c.Ops, Op{K: "direct", Rs: []RecSpec{s, g.next()}})
+			default:
+				c.Ops = append(c.Ops, Op{K: "append", R: &s})
+			}
+		}
+		if !noQueue && r.Chance(50) {
+			c.Ops = append(c.Ops, Op{K: "step"}, Op{K: "step"})
+		}
+	}
+	if !noQueue && r.Chance(60) {
+		c.Ops = append(c.Ops, Op{K: "stop"})
+	}
+	return c
 }
 
 // genBadMix: unserialisable records at every position of a batch — first, middle, last, alone,
@@ -498,7 +593,9 @@ type Free struct {
 	//   "stalled" all records are added, one after the other, before the background goroutine
 	//             is started: exactly the first `capacity` ones are accepted; no callback
 	Accept string `json:"accept"`
-	SlowUs int    `json:"slow_us,omitempty"` // time the client takes per pack (a consumer slower than the producers)
+	// DirectCallers: number of goroutines calling SendDirect concurrently (batches dealt round-robin)
+	DirectCallers int `json:"direct_callers,omitempty"`
+	SlowUs        int `json:"slow_us,omitempty"` // time the client takes per pack (a consumer slower than the producers)
 }
 
 func genFree(r *vh.Rng, thorough bool) *Case {
@@ -553,9 +650,17 @@ func genFree(r *vh.Rng, thorough bool) *Case {
 		f.Producers[k] = append(f.Producers[k], it)
 	}
 	nd := r.Intn(4)
+	if r.Chance(35) {
+		// several SendDirect callers at once, enough batches for them to overlap, payloads that compress
+		f.DirectCallers = 2 + r.Intn(3)
+		nd = 4 + r.Intn(8)
+	}
 	for i := 0; i < nd; i++ {
 		var b []RecSpec
 		m := r.Intn(8)
+		if f.DirectCallers > 1 {
+			m = 1 + r.Intn(8)
+		}
 		for j := 0; j < m; j++ {
 			b = append(b, g.next())
 		}
